@@ -73,22 +73,9 @@ Proof.
   apply str_eqb_true. exact H.
 Qed.
 
-(* objects with static storage duration are all const: the generated code has no writable state
-   outside the contexts it is handed (C17) *)
-Theorem no_writable_static : forall ds,
-    no_writable_static_b ds = true ->
-    forall d, In d ds -> static_duration d = true -> d_const d = true.
-Proof.
-  intros ds H d Hd Hs. unfold no_writable_static_b in H. rewrite forallb_forall in H.
-  specialize (H d Hd). rewrite Hs in H. exact H.
-Qed.
-
 (* ---- obligations on the regenerated declarations ------------------------------------------ *)
 
 Lemma decls_ext_prefixed : all_ext_prefixed decls = true.
-Proof. vm_compute. reflexivity. Qed.
-
-Lemma decls_no_writable_static : no_writable_static_b decls = true.
 Proof. vm_compute. reflexivity. Qed.
 
 Lemma decls_nested_prefix_collision : nested_prefix_collision_b decls = true.
